@@ -614,7 +614,7 @@ def main():
                                        model=v.get('model'), native_end=end, replay=rd))
             else:
                 unreproduced += 1
-                notes.append('UNREPRODUCED model for %s (%s %s): native end = %s' % (root, v['kind'], v['msg'], end))
+                notes.append('UNREPRODUCED model for %s (%s %s at %s): native end = %s; model = %s' % (root, v['kind'], v['msg'], v.get('where'), end, json.dumps(v.get('model'))[:600]))
                 if proc is not None and jid not in res:
                     notes.append('native output: ' + (proc.stdout + proc.stderr)[-800:])
     # ---- translator validation
